@@ -40,7 +40,8 @@ class CuckooWorld(Scenario):
             "max_swaps": rng.choice(MAX_SWAPS),
             "finger_size": rng.weighted([(3, 1), (2, 2), (3, 4)]),
             "auto_expand": rng.chance(1, 2),
-            "expansion_rate": rng.weighted([(3, 2), (1, 3)]),
+            # rate 1 ("expand" into a table of the same size) is legal and makes failed expansions frequent
+            "expansion_rate": rng.weighted([(4, 2), (1, 3), (1, 1)]),
             "hash": rng.weighted([(1, "default"), (2, "sim")]),
             "hseed": rng.below(1 << 16),
             "universe": rng.choice((6, 10, 16, 30, 60)),
